@@ -147,16 +147,20 @@ def make_input(r, kind):
             return text[:i] + '(' + text[i:]
         if c < 0.7:
             return ''
-        if c < 0.75:
-            # no s-expression at all, but not everything can go
-            return r.choice(['keep-me "lit" 42\n; c\n',
-                             '; a comment keep-me\nkeep-me\n|q s| :kw\n',
-                             '"only" "literals" keep-me'])
         if c < 0.8:
             return '; only a comment\n; another\n'
         if c < 0.9:
             return text[:r.randrange(len(text) + 1)]
         return ')))' + text + '((('
+    if kind == 'atoms':
+        # no s-expression at all (comments, bare atoms, literals), and not
+        # everything can go
+        parts = r.sample(['keep-me', '"lit"', '42', '; c', '|q s|', ':kw',
+                          '#b01', '; another comment', 'keep-me'],
+                         r.randint(2, 6))
+        if 'keep-me' not in parts:
+            parts.insert(r.randint(0, len(parts)), 'keep-me')
+        return '\n'.join(parts) + r.choice(['', '\n'])
     if kind == 'deep':
         # nesting far beyond the interpreter's recursion limit, at a random
         # token position (a name, a sort, a binder, a term, a whole command)
@@ -501,7 +505,7 @@ def shard(args):
             long_case(res, base, ['ddmin', 'hybrid'][args['shard'] - 2])
         for i in range(args['n']):
             kind = ['wellformed', 'fuzzed', 'illformed', 'unbalanced',
-                    'fuzzed', 'illformed', 'deep'][i % 7]
+                    'fuzzed', 'illformed', 'deep', 'atoms'][i % 8]
             text = make_input(r, kind)
             fam = r.choice([['all'], ['all'], ['has'], ['ntok'], ['count'],
                             ['hash']])
